@@ -126,7 +126,7 @@ spec("C08", "Fixed point after one pass",
      not_decided="byte identity of the 2nd and 3rd emission in general (quote guards, indentation, wrapping are value-level)")
 
 spec("C09", "sync makes targets agree",
-     [C.rule_call_direct, C.rule_call_dispatch, C2.rule_cli2, V.rule_visit1, F.rule_file5, F.rule_file2c, det3("sync", "conformance.ground_truth")],
+     [C.rule_call_direct, C.rule_call_dispatch, C2.rule_cli2, V.rule_visit1, F.rule_file5, F.rule_file2b, F.rule_file2c, det3("sync", "conformance.ground_truth")],
      "Necessary conditions: (CALL) every call through the sync dispatch table binds to its callee's signature for every table row and branch (create / append / replace), "
      "on top of 290+ directly resolved calls; (CLI-2) no accepted combination of the three kinds dereferences an option that was not given (192 abstract states); (VISIT-1) "
      "every visit_<T> override of the replacer replaces under the location predicate or delegates; (FILE-5) an appended definition starts on a new line; (FILE-2c) an "
@@ -145,7 +145,7 @@ spec("C10", "sync idempotent / truth untouched / truthful report",
      not_decided="byte identity of a second run (needs emit.parse to be a fixed point: value-level); growth by repeated append when the lookup cannot find what was appended")
 
 spec("C11", "sync preserves the rest",
-     [named(M.rule_modf, "rule_modf_sync", workers=("conformance._conform_filename",)), F.rule_file5, F.rule_file3, V.rule_visit2, V.rule_visit6, V.rule_visit4, det3("sync", "conformance.ground_truth")],
+     [named(M.rule_modf, "rule_modf_sync", workers=("conformance._conform_filename",)), F.rule_file5, F.rule_file3, V.rule_visit2, V.rule_visit6, V.rule_visit4, V.rule_visit4b, det3("sync", "conformance.ground_truth")],
      "Necessary conditions: (MOD-F) between reading a target module and writing it back the only field-visible writes on the tree are the replacer's or identity-preserving "
      "re-listings, the reader's docstring re-indent being disabled at the call site; (FILE-5) appended text starts on a new line so the file still parses; (VISIT-2) at most "
      "one node is replaced; (VISIT-6) locations are compared by exact equality; (VISIT-4) locations are built inductively, so only the addressed node can match. (DET-3, scoped) no function on this property's code path writes state that outlives the call (module globals/objects, function or class attributes, mutated mutable defaults, memoised mutable results): the conversion is not history-dependent.",
@@ -182,7 +182,7 @@ spec("C14", "sync_properties changes exactly the addressed property",
      not_decided="that the addressed node is the right one (C15), eval mode (executes the input module)")
 
 spec("C15", "Dotted locations",
-     [named(V.rule_visit3, "rule_visit3", location_inductive=V.location_is_inductive), V.rule_visit4, V.rule_visit2, V.rule_visit6],
+     [named(V.rule_visit3, "rule_visit3", location_inductive=V.location_is_inductive), V.rule_visit4, V.rule_visit4b, V.rule_visit2, V.rule_visit6],
      "Necessary conditions: (VISIT-3) typestate over the CFG of find_in_ast: a path segment is consumed only after the previous one was matched and a node is answered only "
      "in state MATCHED; (VISIT-3b) answers decided by `_location == search` alone are only accepted while the annotation is inductive; (VISIT-4) every `_location` is built "
      "from the parent's location; (VISIT-2) replace at most once; (VISIT-6) locations are compared by exact equality only.",
